@@ -5,6 +5,10 @@
 // every block the sequence allocated is released exactly once (ledger balance, no ledger error).
 // case file: "cinter <id> scen <name> nd N" / "dim d order O nknots K" / "aux KEY|VALUE" / "end"
 #include "e2_table_common.hpp"
+#include <csignal>
+static sigjmp_buf crash_env; static volatile int crash_armed;
+static void on_crash(int sig){ if (crash_armed) { crash_armed = 0; siglongjmp(crash_env, sig); } signal(sig, SIG_DFL); raise(sig); }
+template<class F> static int guarded(F f){ int s = sigsetjmp(crash_env, 1); if (s) return s; crash_armed = 1; f(); crash_armed = 0; return 0; }
 static void accessors(const std::string& id, chandle& h, const ps_table& t){
   char* H = (char*)&h;
   eqi(id + " splinetable_ndim", ir_splinetable_ndim(H), t.ndim); eqi(id + " splinetable_total_ncoeffs", ir_splinetable_total_ncoeffs(H), ncoef(t));
@@ -20,6 +24,7 @@ static void accessors(const std::string& id, chandle& h, const ps_table& t){
 
 int main(int argc, char** argv){
   if (argc < 3) return 2;
+  signal(SIGSEGV, on_crash); signal(SIGBUS, on_crash); signal(SIGABRT, on_crash);
   std::ifstream in(argv[1]); vs_open(argv[2]); std::vector<std::string> lines; std::string line; while (std::getline(in, line)) lines.push_back(line); int ncase = 0, nerr = 0;
   for (size_t li = 0; li < lines.size(); li++) { std::istringstream ls(lines[li]); std::string w; if (!(ls >> w) || w != "cinter") continue;
     Shape s; std::string id, tok; ls >> id; while (ls >> tok) { if (tok == "nd") ls >> s.nd; else if (tok == "scen") ls >> s.scen; else if (tok == "nconv") ls >> s.nconv; else if (tok == "cdim") ls >> s.cdim; }
@@ -57,6 +62,7 @@ int main(int argc, char** argv){
       int nalloc = seq(-1, id); balanced(id); (void)nalloc_before;
       if (sc == "memfail") for (int k = 0; k < nalloc; k++) { std::string lab = id + " allocation #" + std::to_string(k) + " fails:"; seq(k, lab); balanced(lab); }
     } else if (sc == "disk") {
+      int sgall = guarded([&]{
       char path[] = "t.fits", missing[] = "missing.fits"; ir_t_write_fits((char*)&t, path); if (exc_pending) vs_error("twin write_fits threw");
       chandle h = {0}; eqi(id + " splinetable_init", ir_splinetable_init((char*)&h), 0); escaped(id + " splinetable_init");
       uint32_t rc = ir_readsplinefitstable(missing, (char*)&h); escaped(id + " readsplinefitstable(missing)"); eqi(id + " reading a missing file fails like the constructor throws", rc != 0, 1);
@@ -68,7 +74,12 @@ int main(int argc, char** argv){
         // every failing cfitsio call of the write: non-zero return, nothing escapes, handle closed
         reset_files(); ir_writesplinefitstable(out, (char*)&h); int ncalls = cf_calls; exc_pending = 0;
         for (int k = 0; k < ncalls; k++) { reset_files(); cf_fail_at = k; rc = ir_writesplinefitstable(out, (char*)&h); std::string lab = id + " failing I/O call #" + std::to_string(k) + ":"; escaped(lab + " writesplinefitstable"); eqi(lab + " reported as a non-zero return", rc != 0, 1); eqi(lab + " file handle released", cf_open_handles, 0); cf_fail_at = -1; } }
-      ir_splinetable_free((char*)&h); escaped(id + " splinetable_free"); ir_splinetable_free((char*)&h); escaped(id + " second splinetable_free"); balanced(id);
+      // a failing read into the occupied handle, then free: the handle must never keep a pointer to a destroyed table
+      { int berr = vm_errors; int sg = guarded([&]{ uint32_t r2 = ir_readsplinefitstable(missing, (char*)&h); (void)r2; exc_pending = 0; ir_splinetable_free((char*)&h); ir_splinetable_free((char*)&h); });
+        eqi(id + " a failing read into an occupied handle followed by splinetable_free does not crash", sg, 0); eqi(id + " a failing read into an occupied handle followed by splinetable_free deletes nothing twice", vm_errors, berr); exc_pending = 0; if (sg) h.data = 0; }
+      balanced(id);
+      });
+      eqi(id + " the call sequence does not crash (double free / use of a destroyed table)", sgall, 0); exc_pending = 0;
     } else if (sc == "keys") {
       uint64_t n = 0; char* buf = ir_t_write_fits_mem((char*)&t, (char*)&n); chandle h = {0}; cbuffer in_ = {buf, n}; ir_splinetable_init((char*)&h); ir_readsplinefitstable_mem((char*)&in_, (char*)&h); if (exc_pending) vs_error("setup failed");
       ps_table u; memset(&u, 0, sizeof u); ir_t_read_fits_mem((char*)&u, buf, n);     // the twin object
